@@ -4,19 +4,6 @@ From MptV Require Import Base.Mem Base.Tactics C16.IdentModel C16.IdentSpec C16.
 Local Open Scope nat_scope.
 
 (* ------------------------------------------------------------------ initial state *)
-Lemma ident_init_ok sz : 16 <= sz ->
-  exists id, ident_init sz = Some id /\ idok heap0 id [] /\ external id = false /\
-             ilen id = 0 /\ ics id = 0%N /\ imax id = Nat.min (sz - 4) 252.
-Proof.
-  intros H. unfold ident_init, HSZE, IDENT_MAX.
-  destruct (Nat.ltb_spec sz 4); [lia|].
-  eexists. split; [reflexivity|].
-  assert (12 <= Nat.min (sz - 4) 252) by (apply Nat.min_glb; lia).
-  repeat split; cbn [ival imax ilen ics]; try reflexivity; try lia.
-  - apply zcells_length.
-  - intros X. discriminate.
-Qed.
-
 Lemma init_ids_ok sizes : Forall (fun s => 16 <= s) sizes ->
   forall i id, nth_error (init_ids sizes) i = Some id -> idok heap0 id [] /\ external id = false.
 Proof.
@@ -79,7 +66,7 @@ Qed.
 Lemma sexec_length ops : forall s, length (sexec s ops) = length s.
 Proof.
   induction ops as [|o r IH]; intros s; [reflexivity|]. cbn [sexec]. rewrite IH.
-  destruct o as [i name len|i [j|]|i name nlen|i j|len|len]; cbn [sstep].
+  destruct o as [i name len|i [j|]|i name nlen|i j|len|len|i name len|i name nlen|i|i j|i j|i total]; cbn [sstep].
   - destruct (nth_error s i); [|reflexivity]. destruct (sset a name len). apply length_set_nth.
   - destruct (nth_error s i); [|reflexivity]. destruct (nth_error s j); [apply length_set_nth|reflexivity].
   - destruct (nth_error s i); [apply length_set_nth|reflexivity].
@@ -87,6 +74,13 @@ Proof.
   - destruct (nth_error s i); [|reflexivity]. destruct (nth_error s j); reflexivity.
   - reflexivity.
   - reflexivity.
+  - destruct (nth_error s i); [|reflexivity]. destruct (sset a name len). apply length_set_nth.
+  - destruct (nth_error s i); reflexivity.
+  - destruct (nth_error s i); reflexivity.
+  - destruct (nth_error s i); [|reflexivity]. destruct (nth_error s j); [apply length_set_nth|reflexivity].
+  - destruct (nth_error s i); [|reflexivity]. destruct (nth_error s j); [|reflexivity].
+    destruct (i =? j); [reflexivity|apply length_set_nth].
+  - destruct (nth_error s i); [apply length_set_nth|reflexivity].
 Qed.
 
 (* an invariant world in which no identifier holds an allocated name has an empty heap *)
